@@ -51,6 +51,7 @@ StepInit ==
      /\ imports = CvSets(j.imports)
      /\ warn    = CvWarnAll(j.warn)
      /\ ok = j.ok /\ comp = j.comp /\ dirty = j.dirty
+     /\ enc = [f \in RFiles |-> j.enc[f]]
   /\ gen = [s |-> schema, t |-> texists, c |-> cfg]
   /\ n = 0
   /\ act = [name |-> "Init"]
@@ -75,6 +76,7 @@ EditAction(a) ==
   \/ a.name = "EditBody"    /\ EditBody(a.f, a.p, CvEdit(a.e))
   \/ a.name = "AddHelper"   /\ AddHelper(a.f, a.h)
   \/ a.name = "AddImport"   /\ AddImport(a.f, a.p, a.i)
+  \/ a.name = "Resave"      /\ Resave(a.f, a.en)
   \/ a.name = "AddField"    /\ AddField(a.p, a.sf)
   \/ a.name = "RemoveField" /\ RemoveField(a.p)
   \/ a.name = "RenameField" /\ RenameField(a.p, a.q)
@@ -88,7 +90,8 @@ JudgeEdit ==
      out' = [id |-> Steps[idx].id, kind |-> "edit",
              same |-> /\ meth' = CvMethAll(j.meth) /\ helpers' = CvSets(j.helpers)
                       /\ imports' = CvSets(j.imports) /\ warn' = CvWarnAll(j.warn)
-                      /\ schema' = [p \in Pairs |-> j.schema[p]] /\ dirty' = j.dirty]
+                      /\ schema' = [p \in Pairs |-> j.schema[p]] /\ dirty' = j.dirty
+                      /\ enc' = [f \in RFiles |-> j.enc[f]]]
   /\ PrintT(ToJson(out'))
   /\ idx' = 0
 
